@@ -84,9 +84,46 @@ def neighbours(toks):
     return out
 
 
+def volatile_index(chk):
+    """an index that lives in sandbox memory (arr[*p]): the sandbox rewrites it after EVERY machine read of sandbox memory that the
+    access performs (the interposer of the C09 engine); the access must abort or designate an element of the array"""
+    from checks import c09
+    sbin, slog = c09.build()
+    if sbin is None:
+        chk.fail("harness h_snap does not compile against the current headers", {"log_tail": slog[-3000:]}, found=False)
+        return 0
+    acts = ["none", "idxbig", "idxsmall", "idxneg"]
+    ops = [f"snap idx {init} {k} {a}" for init in ("in", "out") for a in acts for k in range(0, 5)]
+    req = [f"snapset idx {init} {a}" for init in ("in", "out") for a in acts]
+    rc, mlines, merr = core.run_model("\n".join(req) + "\n")
+    if rc != 0 or len(mlines) != len(req):
+        raise SystemExit("infrastructure error: model driver failed on snapset idx ops " + merr[-300:])
+    msets = {tuple(q.split()[2:]): set(x.strip() for x in l.split("|")) for q, l in zip(req, mlines)}
+    rc, lines, err = core.run_lines(sbin, "\n".join(ops) + "\n")
+    if len(lines) != len(ops):
+        chk.fail("harness h_snap produced fewer result lines than operations", {"ops": len(ops), "lines": len(lines)}, found=False)
+        return 0
+    bad = []
+    for o, l in zip(ops, lines):
+        t = o.split()
+        out = l.split(" out=", 1)[1] if " out=" in l else l
+        ok = out == "abort" or out in ("off=0", "off=4", "off=8", "off=12")
+        if not ok:
+            chk.fail(f"an index stored in sandbox memory and rewritten by the sandbox during the access reaches beyond the array: `{o}` -> `{l}` (array of 4 ints: offsets 0..12 or abort)",
+                     {"op": o, "impl": l, "model_outcomes": sorted(msets[(t[2], t[4])]), "oracle": "fail"}, signature=f"C17/volatile-index-{t[2]}-{t[4]}", found=True)
+        elif out not in msets[(t[2], t[4])]:
+            bad.append((o, l, sorted(msets[(t[2], t[4])])))
+    if bad:
+        chk.fail(f"implementation outcome outside the model's outcome set on {len(bad)} schedules; first: `{bad[0][0]}` -> `{bad[0][1]}`",
+                 {"correspondence": "volatile index (Snapshot.idxVol)", "disagreements": [dict(op=o, impl=l, model_set=m) for o, l, m in bad[:20]]}, found=False)
+    chk.cov["evaluations"] += len(ops)
+    return len(ops)
+
+
 def run(chk):
     thorough = chk.tier == "thorough"
     chk.lean(thorough_checker=thorough)
+    nvol = volatile_index(chk)
     binp, log = build()
     if binp is None:
         chk.fail("harness h_index does not compile against the current headers", {"log_tail": log[-3000:]}, found=False)
@@ -97,18 +134,23 @@ def run(chk):
     for a in res["impl"]:
         k = a.split()[0] if a else "?"
         outcomes[k] = outcomes.get(k, 0) + 1
-    chk.cov["input_distribution"] = {"outcomes": outcomes, "ops": len(ops)}
+    chk.cov["input_distribution"] = {"outcomes": outcomes, "ops": len(ops), "volatile_index_schedules": nvol}
     chk.cov["distinct_nontrivial"] = len(ops)
     chk.cov["rule"] = ("{application, sandbox} memory x element types {char,long,pointer} x lengths 1..16 x 14 index types (plain; tainted/tainted_volatile for 4 of them) x "
                        "values {-1,0,1,n-1,n,n+1,type min/max, 2^k + valid index for k=8,16,32,63,64}; shapes [2][3],[3][5],[4][1],[2][3][4]; app-side arrays sit between canaries; "
-                       "distinct = distinct op lines; oracle: abort iff index outside [0,n), offset = flat index x stride of the memory the array lives in")
+                       "an index stored in sandbox memory rewritten (to a valid, a too large or a negative value) after every machine read of the access (interposer of the C09 engine); distinct = distinct op lines; oracle: abort iff index outside [0,n), offset = flat index x stride of the memory the array lives in")
     chk.add_samples([{"op": o, "impl": a, "model": b} for o, a, b in list(zip(ops, res["impl"], res["model"]))[::max(1, len(ops) // 6)]])
     chk.cov["trusted_base"] += ["C17: bool index types are excluded (make_unsigned<bool> does not compile); stride tables of the oracle are hand-written for ABI A"]
 
 
 def replay(chk, rp):
-    binp, log = build()
     ops = [rp["op"]] if "op" in rp else [d["op"] for d in rp.get("disagreements", [])]
+    if ops and ops[0].startswith("snap "):
+        volatile_index(chk)       # the schedules of an index stored in sandbox memory (all 40 of them)
+        for o in ops:
+            print("replayed:", o)
+        return chk.finish()
+    binp, log = build()
     core.differential(chk, ops, binp, oracle, label="replay")
     for o in ops:
         print("replayed:", o)
